@@ -23,7 +23,8 @@ def driver() -> Driver:
 
 def build(case: Dict[str, Any]) -> Tuple[Dict[str, Any], Dict[str, Any], Problem]:
     kw, desc, p = scenario(case["seed"], case.get("features"), families=case.get("families"),
-                           small_budgets=case.get("small_budgets"), n=case.get("n"), box=case.get("box"))
+                           small_budgets=case.get("small_budgets"), n=case.get("n"), box=case.get("box"),
+                           zero_bounds=case.get("zero_bounds", False))
     for k, v in (case.get("override") or {}).items():
         kw[k] = v
     return kw, desc, p
